@@ -534,4 +534,6 @@ WITNESSES = [
      "old": "\tmemcpy(&b->list, &tmp_list, sizeof(tmp_list));\n", "new": "\tmemcpy(&b->list, &tmp_list, sizeof(tmp_list));\n\tb->update_fp = a->update_fp;\n"},
     {"id": "C06.w14-spki-copy-forgets-an-earlier-failure", "rule": "C06.R4", "file": HT,
      "old": "\t\t\tif (spki_table_add_entry(dst, &record) != SPKI_SUCCESS) {\n\t\t\t\tret = SPKI_ERROR;\n\t\t\t\tbreak;\n\t\t\t}", "new": "\t\t\tret = spki_table_add_entry(dst, &record) != SPKI_SUCCESS ? SPKI_ERROR : SPKI_SUCCESS;"},
+    {"id": "C06.w15-swap-skips-an-empty-family", "rule": "C06.R2", "file": TP,
+     "old": "\ta->ipv4 = b->ipv4;\n", "new": "\tif (b->ipv4)\n\t\ta->ipv4 = b->ipv4;\n"},
 ]
